@@ -167,6 +167,66 @@ class Item:
         self.log.append((rule, '%s -> %s  x%d' % (pat, repl, k)))
         return self
 
+    def rw_slices(self, exclude=()):
+        """R3, generic form: string slicing expressions become shim calls, whatever their operands are
+        (so an edited bound still reaches the verifier instead of losing the rewrite anchor):
+          &E[a..]  &E[..b]  &E[a..b]           -> shim_index_from / _to / _range (E, a, b)
+          E.get_unchecked(a..) / (a..b)          -> shim_get_unchecked_from / _range
+          E.get(a..) / (..b) / (a..b)            -> shim_get_from / _to / _range
+        E is a path of identifiers / field accesses / nullary method calls."""
+        if hasattr(self, '_splices'):
+            raise ExtractError('%s: executable rewrite after ghost splices' % self.name)
+        recv = r'((?:[A-Za-z_]\w*)(?:\.[A-Za-z_]\w*(?:\(\))?)*)'
+        n = 0
+        while True:
+            t = self.text
+            mask = code_mask(t)
+            hit = None
+            ex = []
+            if exclude:
+                sx = Src(t, self.name)
+                for nm in exclude:
+                    st_, se_, bo_, bc_ = sx.find_fn(nm)
+                    ex.append((st_, bc_))
+            inex = lambda pos: any(a_ <= pos <= b_ for a_, b_ in ex)
+            for m in re.finditer(r'&' + recv + r'\[', t):
+                if not mask[m.start()] or inex(m.start()):
+                    continue
+                ob = m.end() - 1
+                cb = match_close(t, mask, ob)
+                inner = t[ob + 1:cb]
+                if '..' in inner and '..=' not in inner:
+                    hit = ('index', m.start(), cb + 1, m.group(1), inner)
+                    break
+            if hit is None:
+                for m in re.finditer(recv + r'\.(get_unchecked|get)\(', t):
+                    if not mask[m.start()] or inex(m.start()):
+                        continue
+                    ob = m.end() - 1
+                    cb = match_close(t, mask, ob)
+                    inner = t[ob + 1:cb]
+                    if '..' in inner and '..=' not in inner:
+                        hit = (m.group(2), m.start(), cb + 1, m.group(1), inner)
+                        break
+            if hit is None:
+                break
+            kind, a, b, e, inner = hit
+            lo, hi = inner.split('..', 1)
+            lo, hi = lo.strip(), hi.strip()
+            base = {'index': 'shim_index', 'get': 'shim_get', 'get_unchecked': 'shim_get_unchecked'}[kind]
+            if lo and hi:
+                call = '%s_range(%s, %s, %s)' % (base, e, lo, hi)
+            elif lo:
+                call = '%s_from(%s, %s)' % (base, e, lo)
+            elif hi:
+                call = '%s_to(%s, %s)' % (base, e, hi)
+            else:
+                raise ExtractError('%s: full-range slice not supported' % self.name)
+            self.text = t[:a] + call + t[b:]
+            self.log.append(('R3', '%s -> %s' % (t[a:b], call)))
+            n += 1
+        return self
+
     def drop_attrs(self):
         """Remove doc comments / attributes in front (ghost-irrelevant)."""
         lines = self.text.split('\n')
